@@ -236,24 +236,45 @@ func AcyclicTerm(_ *VM, t Term, k Cont, env *Env) *Promise {
 }
 
 func cyclicTerm(t Term, visited []Term, env *Env) bool {
-	t = env.Resolve(t)
-
+	// The terms that contain t are kept in a set as well. Searching visited for t made it quadratic to the depth of the
+	// term, and a list is nested as deep as it's long: minutes for 100000 elements, in one step that can't be interrupted.
+	containing := make(map[termID]struct{}, len(visited))
 	for _, v := range visited {
-		if id(t) == id(v) {
+		containing[id(v)] = struct{}{}
+	}
+	return cyclic(t, containing, env)
+}
+
+func cyclic(t Term, containing map[termID]struct{}, env *Env) bool {
+	// The last argument goes in a loop instead of a recursion, which would overflow the Go stack for a long list.
+	var added []termID
+	defer func() {
+		for _, i := range added {
+			delete(containing, i)
+		}
+	}()
+	for {
+		t = env.Resolve(t)
+		c, ok := t.(Compound)
+		if !ok {
+			return false
+		}
+		i := id(c)
+		if _, ok := containing[i]; ok {
 			return true
 		}
-	}
-	visited = append(visited, t)
-
-	if c, ok := t.(Compound); ok {
-		for i := 0; i < c.Arity(); i++ {
-			if cyclicTerm(c.Arg(i), visited, env) {
+		if c.Arity() == 0 {
+			return false
+		}
+		containing[i] = struct{}{}
+		added = append(added, i)
+		for i := 0; i < c.Arity()-1; i++ {
+			if cyclic(c.Arg(i), containing, env) {
 				return true
 			}
 		}
+		t = c.Arg(c.Arity() - 1)
 	}
-
-	return false
 }
 
 // Functor extracts the name and arity of term, or unifies term with an atomic/compound term of name and arity with
